@@ -5,7 +5,9 @@ Python expression syntax, compiled by the engine's spec evaluator."""
 
 class Behaviour(object):
     def __init__(self, name, ghost=None, requires=(), ensures=None, raises=None, modifies=(), hints=(),
-                 split=(), calls=None, result=None, unfold_depth=2, loops=None, assumes=(), native_build=None, init=None, native=None, sets=None, noreturn=False, effects=None, reveal=(), returns_when=(), params=None, clock=False, trusted=False):
+                 split=(), calls=None, result=None, unfold_depth=2, loops=None, assumes=(), native_build=None, init=None, native=None, sets=None, noreturn=False, effects=None, reveal=(), returns_when=(), params=None, clock=False, trusted=False, exit_hints=(), thorough_only=False):
+        self.thorough_only = thorough_only          # verified in the thorough tier only (the quick tier lists it as not run)
+        self.exit_hints = list(exit_hints)          # expressions (over result) evaluated at a normal exit only for their unfoldings / lemma instances
         self.trusted = trusted                      # this behaviour is ASSUMED (an interface view), not verified against the body
         self.clock = clock                          # the function reads the clock / lets time pass: `now` advances over a call
         self.params = dict(params or {})            # per-behaviour parameter sorts (override the contract's)
@@ -34,7 +36,11 @@ class Behaviour(object):
 
 class Contract(object):
     def __init__(self, target, params=None, behaviours=None, loops=None, inline=False, result=None,
-                 fields=None, locals=None, note="", tier=1, trusted=False, dispatch=None, effect_free=False, abstract_calls=None, free=None, self_methods=None, self_name="self", solver_pruning=False, **default_behaviour):
+                 fields=None, locals=None, note="", tier=1, trusted=False, dispatch=None, effect_free=False, abstract_calls=None, free=None, self_methods=None, self_name="self", solver_pruning=False, append_hints=None, getattr_assume=None, merge_iteration=False, dynamic_errors=False, **default_behaviour):
+        self.dynamic_errors = dynamic_errors        # operands of the wrong dynamic type raise (TypeError) / run user code (Op event) instead of being excluded by an obligation
+        self.merge_iteration = merge_iteration      # iterate a dynamic value on ONE path (items defined by cases) instead of one path per kind
+        self.getattr_assume = dict(getattr_assume or {})   # attribute name -> (clause over obj/result, reason): an assumed fact about reading that attribute
+        self.append_hints = list(append_hints or [])    # lemma instances used at every list.append (scope: acc = the list's items, x = the value)
         self.solver_pruning = solver_pruning
         self.self_methods = dict(self_methods or {})  # {method name: reason} - `self.<name>` resolved statically to the class's own function
         self.self_name = self_name
